@@ -595,16 +595,9 @@ static rc::Gen<Case> gen_grid(int) {
     return c;
   });
 }
-static Outcome run_grid(const Case &c) {
-  Outcome o;
-  if (c.empty() || c[0].a.size() < 6) return o;
-  const auto &a = c[0].a;
-  int which = (int)(((a[0] % 3) + 3) % 3);
+// one grid point; returns a short description of how the carry block was produced
+static std::string grid_one(Outcome &o, int which, int64_t delta, int64_t l1, int64_t l2, int ks, bool inplace) {
   int64_t P = which == 0 ? 4096 : which == 1 ? MIB : 8192;
-  int64_t delta = std::max<int64_t>(-64, std::min<int64_t>(a[1], 64));
-  int64_t l1 = std::max<int64_t>(0, std::min<int64_t>(a[2], 96)), l2 = std::max<int64_t>(0, std::min<int64_t>(a[3], 96));
-  int ks = (int)(((a[4] % 4) + 4) % 4);
-  bool inplace = a[5] & 1;
   // four fixed (key, nonce) pairs so that the reference keystream is memoised across cases
   std::string key = prbytes(0xC02 + ks, ks & 1 ? 32 : 16);
   uint64_t nonce = ks == 0 ? 0 : ks == 1 ? UINT64_MAX : ks == 2 ? 0x00000000ffffffffULL : 0x0123456789abcdefULL;
@@ -620,17 +613,29 @@ static Outcome run_grid(const Case &c) {
   uint64_t pos = 0;
   for (int i = 0; i < 3 && o.ok; i++) {
     size_t n = (size_t)lens[i];
-    std::string data = i == 0 ? std::string(n, '\0') : prbytes(77 + i + (uint64_t)delta * 131 + (uint64_t)l1, n);
-    uint8_t *in = exact(data.data(), n);
+    std::string data = i == 0 ? std::string() : prbytes(77 + i + (uint64_t)delta * 131 + (uint64_t)l1, n);
+    uint8_t *in = (uint8_t *)malloc(n);
+    if (!in) harness_error("malloc");
+    if (i == 0)
+      memset(in, 0, n);  // the long first call encrypts zeros: its output is the keystream itself
+    else if (n)
+      memcpy(in, data.data(), n);
     uint8_t *out = inplace ? in : (uint8_t *)malloc(n);
     c02_ctr_stream(s, in, out, n);
-    size_t j = 0;
-    while (j < n && (uint8_t)(data[j] ^ rs.ks[pos + j]) == out[j]) j++;
-    if (j < n) {
+    bool same;
+    if (i == 0)
+      same = memcmp(out, rs.ks.data() + pos, n) == 0;
+    else {
+      size_t j = 0;
+      while (j < n && (uint8_t)(data[j] ^ rs.ks[pos + j]) == out[j]) j++;
+      same = j == n;
+    }
+    if (!same) {
       std::string want(n, 0);
-      for (size_t q = 0; q < n; q++) want[q] = (char)(data[q] ^ rs.ks[pos + q]);
+      for (size_t q = 0; q < n; q++) want[q] = (char)((i == 0 ? 0 : data[q]) ^ rs.ks[pos + q]);
       o.fail("ctr-grid", "stream calls " + std::to_string(lens[0]) + "," + std::to_string(l1) + "," + std::to_string(l2) + " (carry at byte " +
-                             std::to_string(P) + "), call #" + std::to_string(i + 1) + ": " + first_diff(out, (const uint8_t *)want.data(), n, pos));
+                             std::to_string(P) + (inplace ? ", in place" : "") + "), call #" + std::to_string(i + 1) + ": " +
+                             first_diff(out, (const uint8_t *)want.data(), n, pos));
     }
     if (!inplace) free(out);
     free(in);
@@ -638,17 +643,61 @@ static Outcome run_grid(const Case &c) {
   }
   c02_ctr_free(s);
   c02_key_free(lk);
-  o.cls(which == 0 ? "carry:block256" : which == 1 ? "carry:block65536" : "carry:block512");
   int64_t st[4] = {0, P + delta, P + delta + l1, P + delta + l1 + l2};
   std::string how = "carry-not-reached";
   for (int i = 0; i < 3; i++)
     if (st[i] <= P && P < st[i + 1])
       how = "carry-block-by:call" + std::to_string(i + 1) + (P + 16 <= st[i + 1] ? ":bulk" : ":tail-generate") + (st[i] % 16 ? "(after head)" : "");
+  return how;
+}
+static Outcome run_grid(const Case &c) {
+  Outcome o;
+  if (c.empty() || c[0].a.size() < 6) return o;
+  const auto &a = c[0].a;
+  int which = (int)(((a[0] % 3) + 3) % 3);
+  int64_t P = which == 0 ? 4096 : which == 1 ? MIB : 8192;
+  int64_t delta = std::max<int64_t>(-64, std::min<int64_t>(a[1], 64));
+  int64_t l1 = std::max<int64_t>(0, std::min<int64_t>(a[2], 96)), l2 = std::max<int64_t>(0, std::min<int64_t>(a[3], 96));
+  int ks = (int)(((a[4] % 4) + 4) % 4);
+  std::string how = grid_one(o, which, delta, l1, l2, ks, a[5] & 1);
+  o.cls(which == 0 ? "carry:block256" : which == 1 ? "carry:block65536" : "carry:block512");
   o.cls(how);
   char b[48];
   snprintf(b, sizeof b, "start%%16=%02d", (int)(((P + delta) % 16 + 16) % 16));
   o.cls(b);
-  o.nontrivial = st[3] > P;
+  o.nontrivial = P + delta + l1 + l2 > P;
+  return o;
+}
+
+// Case: sweep which keysel inplace seed -- ONE case enumerates every (delta in -33..16) x (len1 in 0..48) around the carry
+// (2450 three-call streams); len2 is derived from the seed per grid point.
+static rc::Gen<Case> gen_sweep(int tier) {
+  return rc::gen::noShrink(rc::gen::exec([tier]() {
+    int which = tier == 0 ? *rc::gen::weightedElement<int>({{5, 0}, {3, 2}, {1, 1}}) : *rc::gen::weightedElement<int>({{2, 0}, {2, 2}, {3, 1}});
+    Case c;
+    c.push_back(Op("sweep", {which, *range<int>(0, 3), *range<int>(0, 1), *range<int64_t>(0, 1000000)}));
+    return c;
+  }));
+}
+static Outcome run_sweep(const Case &c) {
+  Outcome o;
+  if (c.empty() || c[0].a.size() < 4) return o;
+  const auto &a = c[0].a;
+  int which = (int)(((a[0] % 3) + 3) % 3);
+  int ks = (int)(((a[1] % 4) + 4) % 4);
+  bool inplace = a[2] & 1;
+  std::string r = prbytes((uint64_t)a[3], 50 * 49);
+  uint64_t points = 0;
+  for (int64_t delta = -33; delta <= 16 && o.ok; delta++)
+    for (int64_t l1 = 0; l1 <= 48 && o.ok; l1++) {
+      int64_t l2 = (uint8_t)r[(size_t)((delta + 33) * 49 + l1)] % 49;
+      o.cls(grid_one(o, which, delta, l1, l2, ks, inplace));
+      points++;
+    }
+  pbt::count("carrysweep:grid-points", points);
+  o.cls(which == 0 ? "carry:block256" : which == 1 ? "carry:block65536" : "carry:block512");
+  o.cls(std::string("keysel:") + std::to_string(ks) + (inplace ? ":in-place" : ":separate"));
+  o.nontrivial = true;
   return o;
 }
 
@@ -795,6 +844,12 @@ int main(int argc, char **argv) {
                   "len1,len2 in 0..48, 4 fixed (key,nonce) pairs, in-place or not; every byte compared with the reference keystream. "
                   "Non-trivial: the carry block is produced",
                   gen_grid, run_grid});
+  subs.push_back({"carrysweep",
+                  "each case ENUMERATES the whole grid delta in -33..16 (every start mod 16, before/at/after the carry) x len1 in 0..48 "
+                  "(2450 three-call streams: one call to carry+delta, then len1, then a seed-derived len2 in 0..48) for one carry in "
+                  "{block 256, 512, 65536}, one of 4 fixed (key,nonce) pairs, in-place or not; every byte compared with the reference "
+                  "keystream. Always non-trivial",
+                  gen_sweep, run_sweep});
   subs.push_back({"huge",
                   "one in-place call of 2^k*16+delta bytes (k in 16..20 quick; 24 (256 MiB: the counter carries into its 4th byte) and 20..23 thorough), "
                   "delta in -33..16, then two calls of 0..48 bytes; 4 fixed (key,nonce) pairs. The harness's FIPS-197 reference judges "
